@@ -215,3 +215,23 @@ Fixpoint parse_segs (rs : list (list Z)) : Res (list rseg) :=
   end.
 Definition specialize_entry (pt : bool) (ms : Z) (rows : list (list Z)) : Res (list cmd) :=
   let* segs := parse_segs rows in Ok (specialize pt ms segs).
+
+(* ================= specification side ================= *)
+(* ---------- what "draws the same" means when topology may change: the least congruence containing the
+   rewrites the specialiser documents *)
+Inductive fill_eq : list rseg -> list rseg -> Prop :=
+| fe_refl l : fill_eq l l
+| fe_sym l1 l2 : fill_eq l1 l2 -> fill_eq l2 l1
+| fe_trans l1 l2 l3 : fill_eq l1 l2 -> fill_eq l2 l3 -> fill_eq l1 l3
+| fe_app l1 l2 m1 m2 : fill_eq l1 l2 -> fill_eq m1 m2 -> fill_eq (l1 ++ m1) (l2 ++ m2)
+| fe_zero_line : fill_eq [RL 0 0] []                                   (* a 0lineto can be deleted *)
+| fe_flat_curve b c : fill_eq [RC 0 0 b c 0 0] [RL b c]                (* a 00curveto is demoted to a lineto *)
+| fe_hh a b : fill_eq [RL a 0; RL b 0] [RL (a + b) 0]                  (* adjacent hlineto's merge *)
+| fe_vv a b : fill_eq [RL 0 a; RL 0 b] [RL 0 (a + b)]                  (* adjacent vlineto's merge *)
+| fe_mm a b c d : fill_eq [RM a b; RM c d] [RM (a + c) (b + d)].       (* successive rmoveto's combine *)
+
+(* soundness check of the relation: related drawings end at the same point *)
+Definition seg_delta (s : rseg) : Z * Z :=
+  match s with RM a b | RL a b => (a, b) | RC a b c d e f => (a + c + e, b + d + f) end.
+Fixpoint total_delta (l : list rseg) : Z * Z :=
+  match l with [] => (0, 0) | s :: r => let '(x, y) := seg_delta s in let '(u, v) := total_delta r in (x + u, y + v) end.
